@@ -340,6 +340,7 @@ func (r *foRun) followup() {
 
 func (r *foRun) oracleC09() {
 	r.commonFO()
+	r.collisionProvenance()
 
 	out := r.e.out
 
